@@ -214,6 +214,10 @@ def _generate(rng, tier):
         processes.append({"name": "early", "ops": [{"op": "raise", "serial": gen.serial}]})
     scenario = {"mode": "events", "initial_time": rng.choice([0, 0, 3, -6]),
                 "events": ["E%d" % i for i in range(gen.n_events)], "processes": processes}
+    defusers = [name for name in scenario["events"] if rng.random() < 0.2]
+    if defusers:
+        scenario["defusers"] = defusers
+        gen.features.add("defusing-callback")
     if embedded:
         scenario["embedded"] = True
         # the environment must outlive the native activities that use its events
